@@ -147,6 +147,8 @@ def make_invalid(rng, n, edges, only=None):
                 u = rng.randrange(n); v = (u + 1 + rng.randrange(n - 1)) % n
                 out.insert(pos, (u, v, rng.choice(['0', '-3', '0.0'])))
             kinds.add('nonpositive')
+    if not kinds:   # nothing could be injected (e.g. a single vertex without edges and an unlucky draw): a self-loop always can
+        v = rng.randrange(n); out.append((v, v, '1')); kinds.add('loop')
     return n, out, sorted(kinds)
 
 
